@@ -127,6 +127,7 @@ func (vc *VC) callValue(act *Act, st *State, common *ssa.CallCommon, fnVal Val, 
 		for _, ev := range vc.eng.eventsFor("callparam", strings.TrimPrefix(name, "param ")) {
 			vc.applyEvent(act, st, pre, ev, args, argTypes, res, resT, site)
 		}
+		vc.siteAssumeAfter(act, st, pre, "callparam "+strings.TrimPrefix(name, "param "), args, argTypes, res, resT)
 	} else {
 		for _, ev := range vc.eng.eventsFor("calldyn", strings.TrimPrefix(name, "dynamic ")) {
 			vc.applyEvent(act, st, pre, ev, args, argTypes, res, resT, site)
@@ -229,7 +230,33 @@ func (vc *VC) callStatic(act *Act, st *State, callee *ssa.Function, fnVal Val, a
 			vc.applyEvent(act, st, pre, ev, args, argTypes, res, resT, site)
 		}
 		vc.keepOwnedResults(st, pre, callee, res, resT, site)
+		vc.siteAssumeAfter(act, st, pre, "call "+key, args, argTypes, res, resT)
 		return res
+	}
+}
+
+// siteAssumeAfter: `assume-after` clauses of the sites matching this call state facts about its result
+// that no code in the repository decides (what the database returns); they are assumed and listed.
+func (vc *VC) siteAssumeAfter(act *Act, st, pre *State, shape string, args []Val, argTypes []types.Type, res Val, resT types.Type) {
+	for _, s := range vc.eng.sitesFor(shape, act.fn, vc.root) {
+		if len(s.AssumeAfter) == 0 {
+			continue
+		}
+		env := vc.specEnv(act, st, pre, "site", nil) // old(...) is the state just before the call
+		for k := range args {
+			var t types.Type
+			if k < len(argTypes) {
+				t = argTypes[k]
+			}
+			env.vars[fmt.Sprintf("arg%d", k)] = TV{args[k], t}
+		}
+		if res != nil {
+			bindResults(env, res, resT, nil)
+		}
+		for n, a := range s.AssumeAfter {
+			vc.assume(st, vc.evalBool(env, a))
+			vc.used[fmt.Sprintf("assumed at %s (%s): %s", shape, clauseName(a, n), a.Text)] = true
+		}
 	}
 }
 
@@ -610,12 +637,26 @@ func (vc *VC) applyContract(act *Act, st *State, fc *FuncContract, names []strin
 	var ress []Val
 	prior := "true"
 	for k, c := range cases {
+		if len(vc.asserts) > 1200 && !vc.feasible(and(pre.guard, prior, conds[k])) {
+			// the case cannot apply here (decided by the solver from the facts so far): not generated
+			prior = and(prior, not(conds[k]))
+			vc.pruned++
+			continue
+		}
 		cs := pre.clone()
 		cs.guard = vc.def("g", "Bool", and(pre.guard, prior, conds[k]))
 		prior = and(prior, not(conds[k]))
 		r := vc.applyContract1(act, cs, c, names, args, argTypes, resT, sig, site, what+"/"+c.CaseName)
 		sts = append(sts, cs)
 		ress = append(ress, r)
+	}
+	if len(sts) == 0 {
+		// no case can apply: the path is dead from here on (the some-case-applies obligation above reports it)
+		st.guard = "false"
+		if resT == nil {
+			return nil
+		}
+		return vc.freshVal(st, "ret", resT)
 	}
 	m := vc.mergeStates(sts)
 	g := st.guard
@@ -1147,4 +1188,46 @@ func eventTags(r *Clause, vc *VC) []string {
 		return r.Tags
 	}
 	return vc.fcTags()
+}
+
+// feasible: can cond hold on the current path? Asked of the first back end with a fixed resource budget over
+// the facts generated so far; anything but `unsat` counts as feasible. Used to leave out contract cases that
+// cannot apply at a call site, which keeps large VCs free of dead alternatives and of the joins they need.
+func (vc *VC) feasible(cond string) bool {
+	if cond == "false" {
+		return false
+	}
+	if os.Getenv("GVC_NOPRUNE") != "" {
+		return true
+	}
+	var sb strings.Builder
+	sb.WriteString("(set-logic ALL)\n")
+	for _, l := range vc.prelude() {
+		sb.WriteString(l + "\n")
+	}
+	for _, d := range vc.decls {
+		sb.WriteString(d + "\n")
+	}
+	for _, f := range vc.implementsFacts() {
+		sb.WriteString(f + "\n")
+	}
+	for _, a := range vc.asserts {
+		if strings.Contains(a, "(@ptrwf@") {
+			continue // expanded only when the VC is complete; leaving a fact out keeps the answer conservative
+		}
+		sb.WriteString("(assert " + a + ")\n")
+	}
+	sb.WriteString("(assert " + cond + ")\n(check-sat)\n")
+	f, err := os.CreateTemp("", "gvc-feas-*.smt2")
+	if err != nil {
+		return true
+	}
+	f.WriteString(sb.String())
+	f.Close()
+	defer os.Remove(f.Name())
+	// a resource limit, not a time limit: the answer must not depend on how busy the machine is
+	r, _, _ := runSolver(solverSpec{"z3-5.1.0-rlimit", func(file string, t int) []string {
+		return []string{"z3-new", "rlimit=3000000", fmt.Sprintf("-T:%d", t), file}
+	}}, f.Name(), 30)
+	return r != "unsat"
 }
